@@ -872,7 +872,11 @@ pub fn receive_rewards(mut deps: DepsMut, env: Env, info: MessageInfo) -> Contra
     let fee = config
         .protocol_fee_config
         .dao_treasury_fee
-        .multiply_ratio(amount, 100_000u128);
+        .checked_multiply_ratio(amount, 100_000u128)
+        .map_err(|_| ContractError::ReceiveRewardsTooSmall {
+            amount,
+            minimum: Uint128::MAX,
+        })?;
     let amount_after_fees = amount.checked_sub(fee);
     if amount_after_fees.is_err() {
         return Err(ContractError::ReceiveRewardsTooSmall {
